@@ -16,6 +16,11 @@
 (*   "noinverse" the nquad wrapper applies arg_order instead of argsort(arg_order)        *)
 (*   "constshared" a dimension whose parameters do not depend on the given (shape class 1)  *)
 (*               draws ONE value and repeats it in every row (scalar parameters broadcast)  *)
+(*   "replace"   no deviation, but the model may be MODIFIED between construction and       *)
+(*               sampling: Replace(i, s) puts another distribution (shape class s) into     *)
+(*               distributions[i]; sampling reads the state of the model at call time       *)
+(*   "frozenplan" as "replace", but sampling iterates over the distribution objects that    *)
+(*               were in the list at construction (variable plan), not the current ones     *)
 (*   "clipgiven" sampling clips the given to the range 0..1 before it is used (the range  *)
 (*               of values a fit has seen) instead of using the value in the row          *)
 EXTENDS RosenblattOps, Json, TLC
@@ -29,8 +34,9 @@ CONSTANTS MaxN,        \* dimensions 2..MaxN
           Admissible,  \* TRUE: cond[i] < i for all i; FALSE: at least one cond[i] >= i
           EmitCfg      \* TRUE: print every configuration (generator for leg R)
 
-VARIABLES pc, mode, n, cond, sh, u, x, acc
-vars == <<pc, mode, n, cond, sh, u, x, acc>>
+VARIABLES pc, mode, n, cond, sh, u, x, acc,
+          plan         \* the shape classes (distribution objects) the model was constructed with
+vars == <<pc, mode, n, cond, sh, u, x, acc, plan>>
 
 Lat == 0..(K - 1)
 
@@ -47,6 +53,7 @@ Init ==
     /\ n \in 2..MaxN
     /\ cond \in CondSet(n)
     /\ sh \in [1..n -> Shapes]
+    /\ plan = sh
     /\ IF mode = "pdf"
        THEN /\ x \in [1..1 -> [1..n -> V]]                 \* the evaluation point
             /\ u = x
@@ -60,6 +67,15 @@ GivenUsed(r, i) == IF cond[i] = 0 THEN 0
                    ELSE IF Mut = "clipgiven" THEN Min2(x[r][cond[i]], 1)
                    ELSE x[UsedRow(r)][UsedCol(i)]
 
+(* the distribution object sampling uses for column i; a model is modified at most once, before
+   sampling starts *)
+ShUsed(i) == IF Mut = "frozenplan" THEN plan[i] ELSE sh[i]
+Replace(i, s) ==
+    /\ Mut \in {"replace", "frozenplan"} /\ mode = "sample" /\ pc = 1 /\ sh = plan
+    /\ i <= n /\ s # sh[i]
+    /\ sh' = [sh EXCEPT ![i] = s]
+    /\ UNCHANGED <<pc, mode, n, cond, u, x, acc, plan>>
+
 (* the row whose random level is used for row r of column i *)
 LevelRow(r, i) == IF Mut = "constshared" /\ cond[i] # 0 /\ sh[i] = 1 THEN 1 ELSE r
 
@@ -67,24 +83,25 @@ IcdfStep(i) ==
     /\ mode = "icdf" /\ pc = i /\ i <= n
     /\ x' = [x EXCEPT ![1][i] = Qm(sh[i], u[1][i], GivenUsed(1, i))]
     /\ pc' = i + 1
-    /\ UNCHANGED <<mode, n, cond, sh, u, acc>>
+    /\ UNCHANGED <<mode, n, cond, sh, u, acc, plan>>
 
 SampleStep(i) ==
     /\ mode = "sample" /\ pc = i /\ i <= n
     /\ x' = [r \in 1..Rows |->
-              [x[r] EXCEPT ![i] = Qm(sh[i], u[LevelRow(r, i)][i], GivenUsed(r, i))]]
+              [x[r] EXCEPT ![i] = Qm(ShUsed(i), u[LevelRow(r, i)][i], GivenUsed(r, i))]]
     /\ pc' = i + 1
-    /\ UNCHANGED <<mode, n, cond, sh, u, acc>>
+    /\ UNCHANGED <<mode, n, cond, sh, u, acc, plan>>
 
 PdfStep(i) ==
     /\ mode = "pdf" /\ pc = i /\ i <= n
     /\ acc' = acc * Dens(sh[i], x[1][i], GivenUsed(1, i))
     /\ pc' = i + 1
-    /\ UNCHANGED <<mode, n, cond, sh, u, x>>
+    /\ UNCHANGED <<mode, n, cond, sh, u, x, plan>>
 
 Next == \/ \E i \in 1..MaxN : IcdfStep(i)
         \/ \E i \in 1..MaxN : SampleStep(i)
         \/ \E i \in 1..MaxN : PdfStep(i)
+        \/ \E i \in 1..MaxN, s \in Shapes : Replace(i, s)
 Spec == Init /\ [][Next]_vars
 
 ----------------------------------------------------------------------------
